@@ -83,6 +83,11 @@ def _worker(job):
         if E.unknown:
             out["status"] = "inconclusive"
             out["reason"] = f"{E.unknown} obligations undecided (solver unknown/timeout)"
+        if E.truncated:
+            out["truncated"] = E.truncated
+            if not E.violations:
+                out["status"] = "inconclusive"
+                out["reason"] = f"{E.truncated} concretisation sites had more than {E.max_values_per_site} feasible integer values (unbounded index or rounding); exploration truncated"
         if E.paths == 0:
             out["status"] = "error"
             out["reason"] = "vacuous: no feasible path completed"
